@@ -732,6 +732,11 @@ impl Node {
 /// Read-only / set-up accessors for the verification harness (`--cfg edp_rs_verif` only).
 #[cfg(edp_rs_verif)]
 impl Node {
+    /// The node's pid allocator (its counters have public test accessors).
+    pub fn verif_pid_allocator(&self) -> &PidAllocator {
+        &self.pid_allocator
+    }
+
     /// Number of outstanding remote calls still registered.
     pub fn verif_pending_rpc_count(&self) -> usize {
         self.pending_rpcs.len()
